@@ -27,10 +27,12 @@ def record_run(lib, model, kind, seed, max_iter, dt=0.05, isp="auto"):
     eng.setup(script)
     unfinished = True
     it = 0
+    size = system.state_size()
     while unfinished and it < max_iter:
         unfinished = eng.iterate()
         it += 1
-    size = system.state_size()
+        if it % 8 == 0 and float(np.max(np.abs(engine_rec.raw_state(lib, size)))) > 1e6:
+            break       # exploding population: event counts are C ints, stay far away from their range
     traj = engine_rec.raw_traj(lib, size)
     ts = engine_rec.raw_tsample(lib)
     eng.finalize()
